@@ -110,12 +110,18 @@ def generate(rng: random.Random, profile: Optional[Dict[str, Any]] = None) -> Di
                 ops.append({"op": "RULE", "rule": r, "x": e["source"]})
     else:
         n_ops = profile.get("ops", 14)
+        from . import e1_txn
+
         for _ in range(n_ops):
             r = rng.random()
-            if r < 0.3:
-                x = gen.gen_module(rng, process_dependent=True)
+            if r < 0.2:
+                case = e1_txn.strip_case(e1_txn.generate(rng, {"no_faults": rng.random() < 0.5}))
+                ops.append({"op": "TXN", "x": case["source"], "case": case})
+                continue
+            if r < 0.45:
+                x = gen.gen_module(rng, process_dependent=True, special=True)
                 ops.append({"op": "FMT", "x": x})
-            elif r < 0.7:
+            elif r < 0.78:
                 e = rng.choice(corp)
                 x = gen.pick_input(rng, corp, e)
                 op = {"op": "FMT", "x": x}
@@ -246,7 +252,7 @@ def run_seed(seed: int, **profile) -> Dict[str, Any]:
     if res["violations"]:
         res["case"] = case
     if seed % 13 == 0 or res["violations"]:
-        res["sample"] = {"layout": case["layout"], "ops": [{k: (v[:200] if isinstance(v, str) else v) for k, v in op.items()} for op in case["ops"][:3]]}
+        res["sample"] = {"layout": case["layout"], "ops": [{k: (v[:200] if isinstance(v, str) else v) for k, v in op.items() if k != "case"} for op in case["ops"][:3]]}
     return res
 
 
